@@ -309,13 +309,31 @@ func runC11(c *Ctx, r *Report) {
 			if lit, ok := ast.Unparen(g.Call.Fun).(*ast.FuncLit); ok {
 				worker = p.ByLit[lit]
 				goStmt = g
+			} else if cf := p.Callee(pq, g.Call); cf != nil && p.firstParty(cf.Pkg()) && p.ByObj[cf] != nil {
+				// the worker as a method or function of its own: go f.runTask(ctx, state, hash)
+				worker = p.ByObj[cf]
+				goStmt = g
 			}
 		}
 		return true
 	})
 	if worker == nil {
-		infra("unresolved anchor: fetch worker go literal in processQueue")
+		infra("unresolved anchor: fetch worker (go statement) in processQueue")
 	}
+	// run state handed to a worker that is not a closure: the fields of a first-party struct built in the dispatcher
+	runState := map[types.Object]bool{}
+	walkNoLit(pq.Body, func(n ast.Node) bool {
+		if cl, ok := n.(*ast.CompositeLit); ok {
+			if nt := namedOf(p.TypeOf(pq, cl)); nt != nil && nt.Obj().Pkg() != nil && nt.Obj().Pkg().Path() == p.pkgPath("entry") && nt.Obj().Name() != "Fetcher" {
+				if st, ok := nt.Underlying().(*types.Struct); ok {
+					for i := 0; i < st.NumFields(); i++ {
+						runState[st.Field(i)] = true
+					}
+				}
+			}
+		}
+		return true
+	})
 	semRelease := func(fn *Fn, call *ast.CallExpr) bool {
 		return reachesExt(c, fn, call, "golang.org/x/sync/semaphore", "Weighted", "Release", 3)
 	}
@@ -344,7 +362,7 @@ func runC11(c *Ctx, r *Report) {
 		}
 		ast.Inspect(fs.Cond, func(m ast.Node) bool {
 			if id, ok := m.(*ast.Ident); ok {
-				if v, ok := p.ObjOf(pq, id).(*types.Var); ok && !v.IsField() {
+				if v, ok := p.ObjOf(pq, id).(*types.Var); ok && (!v.IsField() || runState[v]) {
 					if b, ok := v.Type().Underlying().(*types.Basic); ok && b.Info()&types.IsInteger != 0 {
 						// must be decremented by the worker
 						dec := false
@@ -470,7 +488,7 @@ func runC11(c *Ctx, r *Report) {
 					f["started"] = true
 				}
 			case *ast.IncDecStmt:
-				if id, ok := ast.Unparen(x.X).(*ast.Ident); ok && p.ObjOf(pq, id) == counter && x.Tok == token.INC {
+				if placeOf(p, pq, x.X) == counter && x.Tok == token.INC {
 					delete(f, "started")
 				}
 			case *ast.AssignStmt:
@@ -542,8 +560,7 @@ func runC11(c *Ctx, r *Report) {
 		// leaving `for counter > 0 {Wait}`: on the false edge of counter > 0 the counter is known drained
 		for _, a := range splitCond(cond, taken) {
 			isCounter := func(e ast.Expr) bool {
-				id, ok := ast.Unparen(e).(*ast.Ident)
-				return ok && p.ObjOf(pq, id) == counter
+				return placeOf(p, pq, e) == counter
 			}
 			if nc, ok := p.normalizeCmp(pq, a, isCounter); ok && nc.impliesNonPositive() && nc.holdsAt(0) { // leaves the loop exactly when nothing is in flight (a test that 0 does not pass never ends the wait)
 				f["drained"] = true
@@ -556,13 +573,13 @@ func runC11(c *Ctx, r *Report) {
 				delete(f, "drained")
 			}
 			if s, ok := nd.(*ast.IncDecStmt); ok {
-				if id, ok := ast.Unparen(s.X).(*ast.Ident); ok && p.ObjOf(pq, id) == counter {
+				if placeOf(p, pq, s.X) == counter {
 					delete(f, "drained")
 				}
 			}
 			if s, ok := nd.(*ast.AssignStmt); ok && s.Tok != token.DEFINE {
 				for _, l := range s.Lhs {
-					if id, ok := ast.Unparen(l).(*ast.Ident); ok && p.ObjOf(pq, id) == counter {
+					if placeOf(p, pq, l) == counter {
 						delete(f, "drained")
 					}
 				}
@@ -591,8 +608,7 @@ func runC11(c *Ctx, r *Report) {
 		ntest := 0
 		isCounterE := func(fn *Fn) func(ast.Expr) bool {
 			return func(e ast.Expr) bool {
-				id, ok := ast.Unparen(e).(*ast.Ident)
-				return ok && p.ObjOf(fn, id) == counter
+				return placeOf(p, fn, e) == counter
 			}
 		}
 		isQueueLen := func(fn *Fn) func(ast.Expr) bool {
@@ -646,7 +662,20 @@ func runC11(c *Ctx, r *Report) {
 		}
 		// initial value
 		okInit, why := false, "no single initialisation of the counter found"
-		if def := p.SoleDefAllowingSteps(pq, counter); def != nil {
+		if cv, isVar := counter.(*types.Var); isVar && cv.IsField() {
+			// a field of the run-state struct: zero unless the literal that builds the struct sets it
+			okInit, why = true, ""
+			walkNoLit(pq.Body, func(n ast.Node) bool {
+				if kv, ok := n.(*ast.KeyValueExpr); ok {
+					if k, ok := kv.Key.(*ast.Ident); ok && p.ObjOf(pq, k) == counter {
+						if v, isC := p.constInt(pq, kv.Value); !isC || v != 0 {
+							okInit, why = false, "the literal that builds the run state sets it to something else than 0"
+						}
+					}
+				}
+				return true
+			})
+		} else if def := p.SoleDefAllowingSteps(pq, counter); def != nil {
 			if v, isC := p.constInt(pq, def); isC {
 				okInit, why = v == 0, fmt.Sprintf("it starts at %d", v)
 			} else if bl, isLit := def.(*ast.BasicLit); isLit && bl.Value == "0" {
@@ -799,6 +828,9 @@ func runC11(c *Ctx, r *Report) {
 		}
 		return true
 	})
+	for o := range runState {
+		shared[o] = true // the fields of the run state a non-closure worker is handed
+	}
 	nshared := 0
 	lockFlow.Visit(func(_ *cfgBlk, n ast.Node, before Facts) {
 		held := false
@@ -886,10 +918,10 @@ func runC11(c *Ctx, r *Report) {
 		nto++
 		ctxID, _ := as.Lhs[0].(*ast.Ident)
 		cancelID, _ := as.Lhs[1].(*ast.Ident)
-		okCtx := ctxID != nil && p.ObjOf(fetch, ctxID) == ctxParam(p, fetch)
+		okCtx := ctxID != nil && (p.ObjOf(fetch, ctxID) == ctxParam(p, fetch) || p.CanonObj(fetch, ctxID) == ctxParam(p, fetch))
 		okArg := len(call.Args) > 0 && func() bool {
 			id, ok := ast.Unparen(call.Args[0]).(*ast.Ident)
-			return ok && p.ObjOf(fetch, id) == ctxParam(p, fetch)
+			return ok && (p.ObjOf(fetch, id) == ctxParam(p, fetch) || p.CanonObj(fetch, id) == ctxParam(p, fetch))
 		}()
 		deferred := false
 		walkNoLit(fetch.Body, func(m ast.Node) bool {
@@ -908,20 +940,33 @@ func runC11(c *Ctx, r *Report) {
 	r.Floor("R-C11.5", "context.With* derivations in Fetch", nto, 1)
 }
 
+// placeOf: the variable or struct field an expression names (x, s.f) — the identity rules compare.
+func placeOf(p *Prog, fn *Fn, e ast.Expr) types.Object {
+	switch x := ast.Unparen(e).(type) {
+	case *ast.Ident:
+		return p.ObjOf(fn, x)
+	case *ast.SelectorExpr:
+		if v, ok := p.ObjOf(fn, x.Sel).(*types.Var); ok && v.IsField() {
+			return v
+		}
+	}
+	return nil
+}
+
 func isDecrementOf(p *Prog, fn *Fn, n ast.Node, v types.Object) bool {
 	switch s := n.(type) {
 	case *ast.IncDecStmt:
-		if id, ok := ast.Unparen(s.X).(*ast.Ident); ok && s.Tok == token.DEC && p.ObjOf(fn, id) == v {
+		if s.Tok == token.DEC && placeOf(p, fn, s.X) == v {
 			return true
 		}
 	case *ast.AssignStmt:
 		if len(s.Lhs) == 1 && len(s.Rhs) == 1 {
-			if id, ok := ast.Unparen(s.Lhs[0]).(*ast.Ident); ok && p.ObjOf(fn, id) == v {
+			if placeOf(p, fn, s.Lhs[0]) == v {
 				if s.Tok == token.SUB_ASSIGN {
 					return true
 				}
 				if be, ok := ast.Unparen(s.Rhs[0]).(*ast.BinaryExpr); ok && be.Op == token.SUB && s.Tok == token.ASSIGN {
-					if id2, ok := ast.Unparen(be.X).(*ast.Ident); ok && p.ObjOf(fn, id2) == v {
+					if placeOf(p, fn, be.X) == v {
 						return true
 					}
 				}
